@@ -4,6 +4,7 @@
    frames each connection received, and what two probe clients got from the directory and from
    the generic object.  The model settles after every frame. *)
 From QV Require Import Hostile.
+From QV Require C12AuthRun.   (* service 0's own volleys (model Auth.v): built with this file, imported by the C12z case files *)
 Local Open Scope N_scope.
 
 Record hcase := {
@@ -60,12 +61,23 @@ Definition hcase_ok (g : hcfg) (k : hcase) : bool :=
   (probe_code g st 1 =? fst (fst (h_probes k))) && (probe_code g st 2 =? snd (fst (h_probes k))) &&
   (probe_code g st 3 =? snd (h_probes k)).
 
+(* scripts whose clients disconnect before their answers are written (go/cmd/qv/c12lost.go: every
+   transport, then fresh clients on every transport): what such a connection received depends on
+   where the race between the server's write and the client's close ended, so only the probes are
+   compared; the model runs the frames (a disconnect is an unreadable frame) and has no notion of
+   transport: a connection accepted from any listener is a fresh connection *)
+Definition hcase_probes_ok (g : hcfg) (k : hcase) : bool :=
+  let st := fold_left (send_settle g) (h_frames k) (connect g (List.length (h_got k)) (hinit_of (h_obj2 k))) in
+  (probe_code g st 1 =? fst (fst (h_probes k))) && (probe_code g st 2 =? snd (fst (h_probes k))) &&
+  (probe_code g st 3 =? snd (h_probes k)).
+
 Fixpoint bad_idx {A} (f : A -> bool) (l : list A) (i : nat) : list nat :=
   match l with
   | [] => []
   | x :: r => if f x then bad_idx f r (S i) else i :: bad_idx f r (S i)
   end.
 Definition hmismatches (g : hcfg) (ks : list hcase) : list nat := bad_idx (hcase_ok g) ks 0.
+Definition pmismatches (g : hcfg) (ks : list hcase) : list nat := bad_idx (hcase_probes_ok g) ks 0.
 
 (* ---- bursts: frames of one connection written back to back, the message type varied ----
 
